@@ -1,7 +1,7 @@
 (* Property C06: frontend-side parsers accept only the matching reply.
    Statements only, over the hand model of the frontend receive paths. *)
 From VV Require Import Base.Bits Base.Rt Base.Val Gen.GenConsts Gen.GenLayout Gen.GenFns
-  Model.Transport Model.Frontend Model.Proxy Proofs.FeProofs Proofs.ProxyProofs.
+  Model.Transport Model.Frontend Model.Proxy Proofs.FeProofs Proofs.ProxyProofs Model.Gpu Proofs.GpuProofs.
 Open Scope N_scope.
 
 (* recv_reply: success implies that the consumed bytes are a header-valid REPLY with the request's
@@ -65,3 +65,16 @@ Theorem C06_feserver_at_most_one : forall ra hr q,
   /\ (List.length (fo_sent (fst (fsrv_handle ra hr q))) <= 1)%nat.
 Proof. exact fsrv_at_most_one. Qed.
 Print Assumptions C06_feserver_at_most_one.
+
+(* the GPU proxy accepts bytes as the answer only if they are a header-valid REPLY to its own request, of exactly the
+   length of the reply type, without descriptors; the value it returns is the body it read *)
+Theorem C06_gpu_accept_sound : forall req bsize q body,
+  gpu_wait req bsize q = inr body ->
+  exists bytes cl q',
+    recv_all (fuel_for q (12 + bsize)) (12 + bsize) [] None [] q = RxAll bytes None cl q'
+    /\ List.length bytes = (12 + bsize)%nat
+    /\ VhostUserGpuMsgHeader_is_valid RG (VhostUserGpuMsgHeader_read bytes 0) = true
+    /\ VhostUserGpuMsgHeader_is_reply_for RG (VhostUserGpuMsgHeader_read bytes 0) req = true
+    /\ body = skipn 12 bytes.
+Proof. exact gpu_wait_sound. Qed.
+Print Assumptions C06_gpu_accept_sound.
